@@ -4,6 +4,8 @@
    lists ( a b c ).  The only extraction library used is ExtrOcamlBasic; numbers stay
    positive/N/Z, so the conversions below are the whole glue. *)
 open Model
+(* a model that extracts Coq's [string] inductive shadows OCaml's type name; re-bind it *)
+type string = String.t
 
 let rec pos_of_int n =
   if n = 1 then XH else if n land 1 = 0 then XO (pos_of_int (n lsr 1)) else XI (pos_of_int (n lsr 1))
